@@ -16,6 +16,7 @@ fn case_json(depth: u8, lon: f64, lat: f64) -> Value {
 /// weighted-mean clauses).
 pub fn check(depth: u8, lon: f64, lat: f64, known: Option<(u64, f64, f64)>, part: &mut Part) -> Option<Viol> {
   let case = case_json(depth, lon, lat);
+  journal("nested::bilinear_interpolation", || case.clone());
   let mk = |kind: &str, expected: String, actual: String| Some(Viol { api: "nested::bilinear_interpolation".into(), kind: kind.into(), case: case.clone(), expected, actual });
   let res = match guarded(move || nested::bilinear_interpolation(depth, lon, lat)) {
     Ok(r) => r,
